@@ -25,6 +25,9 @@ class ModelUnavailable(RuntimeError):
 
 def ensure_binary():
 	"""(Re)builds the extracted driver when a model .vo or a driver source is newer than the binary."""
+	ok, out = common.coq_make(target='Sym/EdRun.vo')    # Check.prove builds only what the theorem file needs
+	if not ok:
+		raise ModelUnavailable(f'the executable model does not compile:\n{out[-2000:]}')
 	sources = [COQ / name for name in MODEL_SOURCES] + [OCAML / 'ed' / name for name in ('extract.v', 'main.ml', 'build.sh')]
 	missing = [str(path) for path in sources if not path.exists()]
 	if missing:
